@@ -39,6 +39,7 @@ struct vs_point {
     unsigned char altcost; /* preemption cost of taking any option != 0 */
     unsigned char kind;
     unsigned char tids[VS_MAXOPT]; /* thread ids of the options, option 0 first */
+    uint64_t state;                /* abstract global state at this point (stateful exploration), 0 if not computed */
 };
 
 struct vs_shared {
@@ -49,7 +50,7 @@ struct vs_shared {
     int horizon;
     int spurious_at; /* -1, or: inject one spurious wake-up at the n-th cv wait (0-based) */
     int nthreads_created;
-    int user[4]; /* harness/explorer use (user[0] = scenario index) */
+    int user[8]; /* [0] scenario index, [1] delay mode, [2] no recording, [3] post-release points, [4] compute state hashes */
     char fail_sig[160];
     char fail_msg[1200];
     int obs_len;
@@ -65,7 +66,11 @@ void vs_end(void);                   /* thread 0 finished its body: verifies all
 int vs_active(void);
 /* quiescence callback: return 1 if "no runnable thread" is an acceptable final state */
 void vs_set_quiescence_cb(int (*cb)(void));
-void vs_set_abnormal_exit_code(int c); /* exit code used when an execution ends by deadlock/horizon/vs_fail (default 0) */
+void vs_set_abnormal_exit_code(int c);
+/* stateful exploration: harness-supplied hash of the shared data the scheduler cannot see, and a per-thread tag
+ * for thread-local data that the call stack does not show (loop counters, which script step, ...) */
+void vs_set_state_cb(uint64_t (*cb)(void));
+void vs_set_tag(uint64_t tag); /* exit code used when an execution ends by deadlock/horizon/vs_fail (default 0) */
 
 /* ---- used by the shim ---- */
 int vs_self(void);
